@@ -1,6 +1,7 @@
 /- line-protocol handler for model "server" (C08): reset / recycle / parse-into-recycled-object
    cases of harness/inproc/h_reset.c and connection-level cases of the end-to-end stream -/
 import LtVerif.Model.Server
+import LtVerif.Model.ErrHandler
 import Driver.H1
 namespace Driver
 open LtVerif LtVerif.B LtVerif.Req
@@ -316,7 +317,59 @@ def connLine (ver : String) (rest : List String) : String :=
         | some ms => String.intercalate " | " ((h1Run cfg.site cfg.env (Conn.fresh cfg.env) ms).map outStr)
   | _ => "bad-op"
 
+/-! ### error-handler bookkeeping (h_errh.c) -/
+open LtVerif.ErrH in
+def ehDump (s : EhSt) (tail : Int) : String :=
+  let sm : Int := if s.savedStatus > 0 && s.savedStatus < 65535 then s.savedMethod else -9
+  let rs := match s.redirectStatus with | some v => toString v | none => "U"
+  s!"{s.status} {s.method} {s.version} {s.savedStatus} {sm} {b01 s.handlerModule} {s.reqbodyLength} {s.bodyIn} " ++
+  s!"{s.keepAlive} {s.target} {rs} {s.resetCalls} {b01 s.upgrade}{b01 s.upgrade} {b01 s.h2ConnectExt} " ++
+  s!"{b01 s.physPath} {b01 s.wwwAuth}{b01 s.wwwAuth} {b01 s.respOther} {s.bodyLen} {b01 s.respBodyFinished} | {tail}"
+
+open LtVerif.ErrH in
+def ehLine (toks : List String) : String :=
+  match toks.take 19 |>.mapM String.toInt?, toks.drop 19 with
+  | some [eh, eh4, ic, st, me, ve, sv, sm, hm, rbl, bi, ka, up, h2, pp, ww, ro, bl, rbf], passes =>
+    let c : Cfg := { errorHandler := eh ≠ 0, errorHandler404 := eh4 ≠ 0, errorIntercept := ic ≠ 0 }
+    let s : EhSt :=
+      { status := st,
+        method := me,
+        version := ve,
+        savedStatus := sv,
+        savedMethod := sm,
+        handlerModule := hm ≠ 0,
+        reqbodyLength := rbl,
+        bodyIn := bi,
+        keepAlive := ka,
+        target := 0,
+        redirectStatus := none,
+        resetCalls := 0,
+        upgrade := up ≠ 0,
+        h2ConnectExt := h2 ≠ 0,
+        physPath := pp ≠ 0,
+        wwwAuth := ww ≠ 0,
+        respOther := ro ≠ 0,
+        bodyLen := bl.toNat,
+        respBodyFinished := rbf ≠ 0 }
+    if passes.isEmpty then
+      let r := hasErrorHandler c s
+      ehDump r.1 (if r.2 then 1 else 0)
+    else
+      let script : List (Int × Bool) := passes.map fun p =>
+        match p.splitOn "," with
+        | [a, b] => (a.toInt?.getD 0, b ≠ "0")
+        | _ => (0, false)
+      let prep : Nat → EhSt → EhSt := fun k s =>
+        match script[k]? with
+        | some (a, b) => { s with status := a, handlerModule := b }
+        | none => s
+      match handle c prep script.length 0 s with
+      | some (r, k) => ehDump r k
+      | none => "fuel"
+  | _, _ => "bad-op"
+
 def serverLine : List String → String
+  | "eh" :: rest => ehLine rest
   | "conn" :: ver :: rest => connLine ver rest
   | "rst" :: op :: specs =>
     match specs.foldlM applySpec freshWorld with
